@@ -814,7 +814,7 @@ def t_call(E):
         return tuple(E.w[n] for n in G) + (fut_world(E)[0], st['retention'])
 
     def check_inv(site):
-        E.oblige('%s/inv_k@%s' % (Qn, site), inv_k(*cur()), props={'C11', 'C09'})
+        E.oblige('%s/inv_k@%s' % (Qn, site), inv_k(*cur()), props={'C11', 'C09', 'C04'})
 
     def interfere(site):
         """Other tasks of the loop run (callers of any key, batch tasks answering futures, eviction timers,
@@ -1081,7 +1081,8 @@ def t_call(E):
                      props={'C11'})
             E.oblige(Qn + '/share.no_eviction_by_a_sharer',
                      z3.BoolVal(not st.get('deleted') and not st.get('timers') and not st.get('callbacks')),
-                     props={'C11', 'C09'})
+                     props={'C11', 'C09', 'C04'},
+                     detail='a sharer that evicts can remove a newer pending entry: its request is then enqueued twice and a caller is never answered')
         aw = st.get('awaits', [])
         E.oblige(Qn + '/await.exactly_one_shielded_await_of_the_keys_future',
                  z3.BoolVal(len(aw) == 1 and aw[0][0] == 'shield'), props={'C09', 'C04'})
